@@ -256,6 +256,10 @@ where
                     if i >= items.len() {
                         break;
                     }
+                    if crate::report::STOP_EXPLORATION.load(Ordering::SeqCst) {
+                        env.stats.count("work_items_skipped_after_too_many_violations", 1);
+                        continue;
+                    }
                     let (pi, si, prefix) = &items[i];
                     let p = &profiles[*pi];
                     let n = p.alphabet.len();
@@ -285,6 +289,10 @@ where
                             heavy_seed,
                         };
                         f(&mut env, &leaf);
+                        if env.stats.unknown_violation_count >= crate::report::STOP_AFTER_VIOLATIONS {
+                            crate::report::STOP_EXPLORATION.store(true, Ordering::SeqCst);
+                            break;
+                        }
                         // next suffix
                         let mut k = p.depth;
                         let mut done = false;
